@@ -262,6 +262,59 @@ def setter_custom(S, target):
         S.check_concrete(rejected, "%s with Interval(0.5, 2): out-of-bounds assignment %.3g is rejected" % (target, b))
 
 
+BATCHED_SETTERS = {
+    "rbf.lengthscale": (lambda B: K.RBFKernel(batch_shape=B), "lengthscale", 0.0),
+    "scale.outputscale": (lambda B: K.ScaleKernel(K.RBFKernel(), batch_shape=B), "outputscale", 0.0),
+    "gaussian.noise": (lambda B: gpytorch.likelihoods.GaussianLikelihood(batch_shape=B), "noise", 1e-4),
+    "periodic.period_length": (lambda B: K.PeriodicKernel(batch_shape=B), "period_length", 0.0),
+    "linear.variance": (lambda B: K.LinearKernel(batch_shape=B), "variance", 0.0),
+    "poly.offset": (lambda B: K.PolynomialKernel(2, batch_shape=B), "offset", 0.0),
+    "constant.constant": (lambda B: K.ConstantKernel(batch_shape=B), "constant", 0.0),
+    "hamming.alpha": (lambda B: K.HammingIMQKernel(vocab_size=2, batch_shape=B), "alpha", 0.0),
+    "index.var": (lambda B: K.IndexKernel(num_tasks=2, rank=1, batch_shape=B), "var", 0.0),
+    "arc.radius": (lambda B: K.ArcKernel(K.RBFKernel(batch_shape=B), batch_shape=B), "radius", 0.0),
+    "cylindrical.alpha": (lambda B: K.CylindricalKernel(2, K.RBFKernel(batch_shape=B), batch_shape=B), "alpha", 0.0),
+    "laplace.noise": (lambda B: gpytorch.likelihoods.LaplaceLikelihood(batch_shape=B), "noise", 0.0),
+    "multitask.task_noises": (lambda B: gpytorch.likelihoods.MultitaskGaussianLikelihood(num_tasks=2, batch_shape=B), "task_noises", 1e-4),
+    "constant_mean.constant": (lambda B: gpytorch.means.ConstantMean(batch_shape=B), "constant", None),
+}
+
+
+def setter_batched(S, target):
+    """a module with batch shape (2,): ONE value (0-d tensor with a symbolic entry, and a Python float) assigned through the setter is
+       broadcast to every batch element; a full-shaped value is stored element by element"""
+    make, attr, lower = BATCHED_SETTERS[target]
+    B = torch.Size([2])
+    m = make(B)
+    v = S.rand(1, lo=0.4, hi=1.5)[0] + (lower or 0.0)
+    V = S.sym_tensor(v, "v")[()]
+    if lower is not None:
+        CTX.assume(gt_formula(V, Sym.const(lower)))
+    with S.mode():
+        ok = S.must_not_raise("%s: assigning one value to a parameter of batch shape (2,)" % target, lambda: setattr(m, attr, v) or True)
+        got = as_sym_arr(SH.get(getattr(m, attr)))
+    S.check_concrete(got.shape[0] == 2, "%s keeps its batch shape" % target, str(got.shape))
+    want = np.empty(got.shape, dtype=object)
+    want[...] = V
+    S.prove_eq(got, want, "%s: one assigned value reads back in every batch element" % target)
+    m2 = make(B)
+    fv = (lower or 0.0) + 0.8
+    try:
+        setattr(m2, attr, fv)
+        okf = bool(((getattr(m2, attr) - fv).abs() < 1e-9).all())
+    except Exception as e:
+        okf = False
+    S.check_concrete(okf, "%s: a Python float is broadcast over the batch" % target)
+    m3 = make(B)
+    full = torch.rand_like(getattr(m3, attr).detach()) * 0.5 + 0.4 + (lower or 0.0)
+    try:
+        setattr(m3, attr, full)
+        okt = bool(torch.allclose(getattr(m3, attr), full, rtol=1e-9, atol=1e-12))
+    except Exception as e:
+        okt = False
+    S.check_concrete(okt, "%s: a full-shaped value is stored element by element" % target)
+
+
 def prior(S, kind, where):
     """where: 'inside' / 'left' / 'right' (which side of a box / positive part) — both branches of piecewise densities"""
     x = S.rand(2, lo=0.4, hi=1.6)
@@ -532,6 +585,8 @@ def scenarios(tier, seed):
     for t in SETTERS:
         add("setter", target=t)
         add("setter_custom", target=t)
+    for t in BATCHED_SETTERS:
+        add("setter_batched", target=t)
     for kind in ("normal", "lognormal", "gamma", "uniform", "halfcauchy", "halfnormal", "horseshoe"):
         add("prior", kind=kind, where="inside")
     for w in ("inside", "left", "right"):
